@@ -50,6 +50,37 @@ def small_eval(e: ast.expr, env: dict[str, int]) -> int:
     raise AnalysisError(f"expression outside the small integer language: {ast.unparse(e)}")
 
 
+def zstd_close_rules(m: Model, r: Report, rid: str) -> None:
+    """_ZstdFileHandler.close: queue handler closed, listener stopped (drained) iff it runs, then flush + close on every path.  Shared by C17 (the
+    log is complete and readable) and C15 (closing the log is the last bookkeeping step of a run)."""
+    zc = m.require_function(f"{LOG}._ZstdFileHandler.close")
+    gz = CFG(zc.node)
+    fclose = {n.id for n in gz.nodes.values() if n.kind == "stmt" and n.ast is not None and ("self.file.close()" in ast.unparse(n.ast) or "self.file.flush()" in ast.unparse(n.ast))}
+    stops = {n.id for n in gz.nodes.values() if n.ast is not None and (("queue_listener.stop()" in ast.unparse(n.ast) and n.kind == "stmt") or
+                                                                   (n.kind == "cond" and "queue_listener" in ast.unparse(n.ast)))}
+    if not fclose or not stops:
+        raise AnalysisError(f"{zc.qualname}: file close / listener stop not found")
+    closes_ = {n.id for n in gz.nodes.values() if n.kind == "stmt" and n.ast is not None and "self.file.close()" in ast.unparse(n.ast)}
+    flushes_ = {n.id for n in gz.nodes.values() if n.kind == "stmt" and n.ast is not None and "self.file.flush()" in ast.unparse(n.ast)}
+    okc_, _ = gz.must_pass(gz.entry, closes_, {gz.exit_return}) if closes_ else (False, [])
+    r.check(okc_, rid, f"{zc.qualname}#file-closed", "close() can return without closing the zstd stream: the frame is never ended and the log cannot be decompressed", loc=zc.loc)
+    qh = {n.id for n in gz.nodes.values() if n.kind == "stmt" and n.ast is not None and "self.queue_handler.close()" in ast.unparse(n.ast)}
+    r.check(bool(qh), rid, f"{zc.qualname}#queue-handler-closed", "the queue handler must be closed so that no record is enqueued after the file is finalised", loc=zc.loc)
+    # the listener is stopped iff it exists and runs
+    stop_stmts = [n.ast for n in gz.nodes.values() if n.kind == "stmt" and n.ast is not None and "queue_listener.stop()" in ast.unparse(n.ast)]
+    r.check(len(stop_stmts) == 1, rid, f"{zc.qualname}#listener-stopped", "the queue listener must be stopped (QueueListener.stop() drains the queue)", loc=zc.loc)
+    r.check(bool(flushes_), rid, f"{zc.qualname}#file-flushed", "the file must be flushed before it is closed", loc=zc.loc)
+    if len(stop_stmts) == 1:
+        from sa.util import path_condition, truth_table
+        badq = truth_table(path_condition(zc.node, stop_stmts[0]), {"self.queue_listener": [None, "L"], "self.queue_listener._thread": [None, "T"]},
+                           lambda a: a["self.queue_listener"] is not None and a["self.queue_listener._thread"] is not None)
+        r.check(not badq, rid, f"{zc.qualname}#stop-condition", f"the queue listener is stopped on {badq}; it must be stopped (drained) exactly when it exists and its thread runs", loc=zc.loc)
+    okz, pz = gz.must_pass(gz.entry, stops, fclose)
+    r.check(okz, rid, f"{zc.qualname}#drain-before-finalise",
+            "the zstd file is flushed / closed before the queue listener was stopped (stop() drains the queue): records still queued hit a closed stream and are lost", loc=zc.loc)
+
+
+
 def run(m: Model, r: Report, tier: str) -> None:
     r.rule("R1", "writer record schema = keys the reader parses (+ version)", floor=2)
     r.rule("R2", "level <-> priority tables are inverse bijections over all seven log levels", floor=14)
@@ -104,31 +135,7 @@ def run(m: Model, r: Report, tier: str) -> None:
                     "record of an earlier line (duplicates / missing records when prefixed and prefix-less lines are mixed)", loc=f"{f.module.relpath}:{ls.lineno}")
     if n_set < 1:
         raise AnalysisError("PenlogReader: no assignment of self._current_line outside __init__")
-    zc = m.require_function(f"{LOG}._ZstdFileHandler.close")
-    gz = CFG(zc.node)
-    fclose = {n.id for n in gz.nodes.values() if n.kind == "stmt" and n.ast is not None and ("self.file.close()" in ast.unparse(n.ast) or "self.file.flush()" in ast.unparse(n.ast))}
-    stops = {n.id for n in gz.nodes.values() if n.ast is not None and (("queue_listener.stop()" in ast.unparse(n.ast) and n.kind == "stmt") or
-                                                                   (n.kind == "cond" and "queue_listener" in ast.unparse(n.ast)))}
-    if not fclose or not stops:
-        raise AnalysisError(f"{zc.qualname}: file close / listener stop not found")
-    closes_ = {n.id for n in gz.nodes.values() if n.kind == "stmt" and n.ast is not None and "self.file.close()" in ast.unparse(n.ast)}
-    flushes_ = {n.id for n in gz.nodes.values() if n.kind == "stmt" and n.ast is not None and "self.file.flush()" in ast.unparse(n.ast)}
-    okc_, _ = gz.must_pass(gz.entry, closes_, {gz.exit_return}) if closes_ else (False, [])
-    r.check(okc_, "R9", f"{zc.qualname}#file-closed", "close() can return without closing the zstd stream: the frame is never ended and the log cannot be decompressed", loc=zc.loc)
-    qh = {n.id for n in gz.nodes.values() if n.kind == "stmt" and n.ast is not None and "self.queue_handler.close()" in ast.unparse(n.ast)}
-    r.check(bool(qh), "R9", f"{zc.qualname}#queue-handler-closed", "the queue handler must be closed so that no record is enqueued after the file is finalised", loc=zc.loc)
-    # the listener is stopped iff it exists and runs
-    stop_stmts = [n.ast for n in gz.nodes.values() if n.kind == "stmt" and n.ast is not None and "queue_listener.stop()" in ast.unparse(n.ast)]
-    r.check(len(stop_stmts) == 1, "R9", f"{zc.qualname}#listener-stopped", "the queue listener must be stopped (QueueListener.stop() drains the queue)", loc=zc.loc)
-    r.check(bool(flushes_), "R9", f"{zc.qualname}#file-flushed", "the file must be flushed before it is closed", loc=zc.loc)
-    if len(stop_stmts) == 1:
-        from sa.util import path_condition, truth_table
-        badq = truth_table(path_condition(zc.node, stop_stmts[0]), {"self.queue_listener": [None, "L"], "self.queue_listener._thread": [None, "T"]},
-                           lambda a: a["self.queue_listener"] is not None and a["self.queue_listener._thread"] is not None)
-        r.check(not badq, "R9", f"{zc.qualname}#stop-condition", f"the queue listener is stopped on {badq}; it must be stopped (drained) exactly when it exists and its thread runs", loc=zc.loc)
-    okz, pz = gz.must_pass(gz.entry, stops, fclose)
-    r.check(okz, "R9", f"{zc.qualname}#drain-before-finalise",
-            "the zstd file is flushed / closed before the queue listener was stopped (stop() drains the queue): records still queued hit a closed stream and are lost", loc=zc.loc)
+    zstd_close_rules(m, r, "R9")
 
     # optional keys: present -> the value, absent -> None (evaluated for both cases)
     from sa import miniterp
@@ -346,6 +353,21 @@ def run(m: Model, r: Report, tier: str) -> None:
     sp = ast.unparse(pp.node)
     r.check("data.startswith(b'<')" in sp and "data[1:data.index(b'>')]" in sp and "return None" in sp, "R3", f"{pp.qualname}#prefix-parse",
             "parse_priority must read the number between '<' and the first '>' and return None without prefix", loc=pp.loc)
+    # evaluated for every priority the writer can emit (0..8), with and without prefix
+    from sa import miniterp as _mt
+    dpar = pp.params()[1] if len(pp.params()) > 1 else "data"
+    badp = []
+    for pv in range(0, 9):
+        for line, want in ((f'<{pv}>{{"priority": {pv}}}'.encode(), pv), (f'{{"priority": {pv}}}'.encode(), None)):
+            try:
+                ret_, env_ = _mt.run_function(pp.node, {dpar: line, "cls": None})
+                got = _mt.eval_expr(ret_.value, env_) if ret_ is not None and ret_.value is not None else None
+            except _mt.Raised:
+                got = "raises"
+            if got != want:
+                badp.append(f"{line[:4]!r}... -> {got}")
+    r.check(not badp, "R3", f"{pp.qualname}#prefix-value", f"parse_priority returns {badp[:4]}: the prefix carries the writer's priority value unchanged (0..8, TRACE = 8); a different "
+            "value makes the prefix path and the JSON path of the priority filter disagree", loc=pp.loc)
     sj = ast.unparse(pj.node)
     r.check("data[data.index(b'>') + 1:]" in sj and "data.startswith(b'<')" in sj, "R3", f"{pj.qualname}#prefix-strip", "parse_json must strip exactly the prefix", loc=pj.loc)
     cp = m.require_function(f"{LOG}.PenlogReader.current_priority")
@@ -358,6 +380,26 @@ def run(m: Model, r: Report, tier: str) -> None:
     r.check(len(dumps) == 1 and not kws, "R4", f"{fmt.qualname}#json-dumps",
             f"json.dumps is called with {kws}: the defaults guarantee a single ASCII line (indent adds newlines; ensure_ascii=False lets unencodable "
             "characters, e.g. lone surrogates, kill the writer thread)", loc=fmt.loc)
+    # the dumped object is the complete record: every key the reader indexes unconditionally is written for every value, also falsy ones ("" / 0)
+    if len(dumps) == 1 and dumps[0].args:
+        obj = dumps[0].args[0]
+        loc_assign = {n.targets[0].id: n.value for n in walk_no_nested(fmt.node) if isinstance(n, ast.Assign) and isinstance(n.targets[0], ast.Name)}
+        if isinstance(obj, ast.Name) and obj.id in loc_assign:
+            obj = loc_assign[obj.id]
+        if isinstance(obj, ast.Call) and ast.unparse(obj.func).endswith("asdict"):
+            dropped = []
+        elif isinstance(obj, ast.DictComp) and len(obj.generators) == 1 and "asdict(" in ast.unparse(obj.generators[0].iter) and isinstance(obj.generators[0].target, ast.Tuple):
+            from sa import miniterp as _mt4
+            kv = [ast.unparse(x) for x in obj.generators[0].target.elts]
+            dropped = []
+            for val in ("", 0, "x", 2):
+                env4 = {kv[0]: "data", kv[1]: val}
+                if not all(bool(_mt4.eval_expr(t_, dict(env4))) for t_ in obj.generators[0].ifs) or ast.unparse(obj.key) != kv[0] or ast.unparse(obj.value) != kv[1]:
+                    dropped.append(repr(val))
+        else:
+            raise AnalysisError(f"{fmt.qualname}: the object passed to json.dumps ({ast.unparse(obj)[:60]}) is neither dataclasses.asdict(record) nor a filter over it")
+        r.check(not dropped, "R1", f"{fmt.qualname}#all-keys-written", f"fields with the values {dropped} are left out of the JSON line: the reader indexes data / priority / "
+                "module / host / datetime / version unconditionally, so e.g. an empty message makes the whole log unreadable", loc=fmt.loc)
     se = m.mtext(emit)
     r.check("if not _L.endswith('\\n'):" in se and "_L += '\\n'" in se and "self.file.write(_L.encode())" in se, "R4", f"{emit.qualname}#terminator",
             "each record must be written as one newline-terminated line", loc=emit.loc)
